@@ -1019,6 +1019,9 @@ pub fn oracle_c06_c07(w: &World, so: &StepObs, out: &mut StepOut, do6: bool, do7
                     "response-parse" if cfg.real_feed => "real-price-feed",
                     "transfer-failure" if partial_path && vault < partial_penalty => "partial-path-vault-below-penalty",
                     "transfer-failure" if !partial_path && vault < rem => "vault-below-remaining-margin",
+                    // dust (both repaired, 906a7b7 / 538cd6a; the names only make a regression readable)
+                    "transfer-failure" if !partial_path && p0.out_spot.max(0) as u128 * cfg.liq_fee / du() / 2 == 0 => "dust-fee-rounds-to-zero",
+                    "panic" if vo.oracle > 0 && tdiv(vo.oracle * pp.size.value.u128() as i128, di()) == 0 => "dust-oracle-notional-zero",
                     _ => "unclassified",
                 };
                 out.viol(
